@@ -4,9 +4,9 @@ _C13_STUBS = ["scan_file is a ghost file system stub (C13/tr.c): NFILES files wi
               NOFAIL]
 _C13_REPO = ["transclude.c", "stack.c"]
 U("c13_marker_buffer", ["C13", "C01"], "h_marker_buffer", ["C13/tr.c", "C13/file_tu.c"], _C13_REPO, plain=True, lib=("lib/libc_models.c",),
-  defines=["-DDS_HAVOC", "-DKMARK=3"], kind="bounded",
-  bounds={"markers per source<=": 3, "marker length and position": "any (source <= 2^20 bytes, symbolic)", "unwind": 8},
-  cbmc_flags=["--unwind", "8", "--unwindset", "mmd_transclude_source:1,mmd_transclude_source.2:5", "--unwinding-assertions"], functions=["mmd_transclude_source"],
+  defines=["-DDS_HAVOC", "-DKMARK=2"], kind="bounded",
+  bounds={"markers per source<=": 2, "marker length and position": "any (source <= 2^20 bytes, symbolic)", "unwind": 8},
+  cbmc_flags=["--unwind", "8", "--unwindset", "mmd_transclude_source:1,mmd_transclude_source.2:4", "--unwinding-assertions"], functions=["mmd_transclude_source"],
   callees={"strstr/strncpy": "contract models (C13/tr.c)", "d_string_*": "havoc stubs (DString by contract, C19)", "scan_file": "always missing", "path helpers (file.c), stack.c": "body",
            "strcmp/strncmp/strcpy/strpbrk": "CBMC built-in"},
   min_obligations=50, timeout=600, cost=30, assumptions=_C13_STUBS + ["every transcluded file is missing (no substitution) in this unit"])
@@ -16,11 +16,12 @@ U("c13_wildcard", ["C13"], "h_wildcard", ["C13/tr.c", "C13/file_tu.c"], _C13_REP
   cbmc_flags=["--unwind", "12", "--unwindset", "mmd_transclude_source:1,mmd_transclude_source.2:3", "--unwinding-assertions"], functions=["mmd_transclude_source"],
   callees={"d_string_*": "ghost sink", "scan_file": "ghost file system (records the requested path)", "path helpers (file.c), stack.c": "body", "libc": "byte-loop models / CBMC built-in"},
   min_obligations=50, timeout=600, cost=30, assumptions=_C13_STUBS)
-for _nf, _tier, _to in ((1, "quick", 600),):
-    U("c13_graph_F%d" % _nf, ["C13", "C01"], "h_graph", ["C13/tr.c", "C13/file_tu.c"], _C13_REPO, plain=True, lib=_C13_SINK,
-      defines=["-DSINK_CAP=9", "-DTRACK_ADVANCE", "-DSHAPED", "-DCONCRETE_GRAPH", "-DNFILES=%d" % _nf], kind="bounded", tier=_tier,
-      bounds={"files": _nf, "file content": "{{x}} with x a symbolic byte (one marker per file)", "file path": "/p with p a symbolic byte",
-              "top-level source": "c0{{x}}c1, three symbolic bytes", "recursion depth<=": "number of files (recursion unwinding assertion)", "unwind": 10},
-      cbmc_flags=["--unwind", "10", "--unwindset", "mmd_transclude_source:%d,mmd_transclude_source.2:2,mmd_transclude_source.0:%d" % (_nf, _nf + 3), "--unwinding-assertions"], functions=["mmd_transclude_source"],
-      callees={"d_string_*": "ghost sink", "scan_file": "ghost file system; asserts the recursion guard", "strstr": "byte-loop model + ghost variant check", "path helpers (file.c), stack.c": "body"},
-      min_obligations=50, timeout=_to, cost=60, assumptions=_C13_STUBS + ["documents have no metadata block in this unit (engine stub answers 'no metadata')"])
+
+PROPS["C13"] = {
+    "level": "other",
+    "explanation": "Two bounded units on the REAL mmd_transclude_source with the file system (scan_file) and the MMD engine stubbed: (1) c13_marker_buffer -- for every marker position and EVERY marker length (source up to 2^20 bytes, strstr/strncpy as contract models, <= 2 markers per source, every file missing) all accesses to text[1100] are in bounds, the >=1000-byte marker is skipped, the source is left untouched, the caller's parse stack is restored and no recursion happens; (2) c13_wildcard -- for every output format the marker {{a.*}} requests exactly /a.html (HTML, HTML+assets, EPUB), /a.tex (LaTeX, Beamer, Memoir), /a.fodt (ODT, FODT), /a.* (MMD), /a.txt (all others) and a missing file leaves its marker in place.",
+    "slice": "mmd_transclude_source (transclude.c) with path_from_dir_base/split_path_file/is_separator/add_trailing_sep (file.c) and stack.c bodies",
+    "not_reached": "recursion guard / termination on include graphs and the substitution result (a unit over a ghost file system with symbolic 1-marker documents was built, C13/tr.c h_graph, but CBMC runs out of 14 GB in propositional reduction even for one file; not registered); manifest de-duplication (symbolic choice between stacks makes CBMC's realloc model in stack_push intractable); metadata stripping and 'transclude base' (engine stubbed)",
+    "trusted_base": ["cbmc/goto-cc 6.11.0 (MiniSat2)", "contract models of strstr/strncpy/strpbrk in C13/tr.c", "lib/ds_sink.c / havoc DString stubs (DString by contract, C19)"],
+    "assumptions": _C13_STUBS,
+}
